@@ -212,6 +212,71 @@ def make_resampler(scheme, n_particles, batches):
                "np.random.random -> symbolic u0 in [0,1)"], theory="QF_LRA")
 
 
+def make_syst_fp(n, m):
+    """bit-precise variant: weights and offset are arbitrary doubles (finite, weights >= 0, offset in [0,1)),
+    np.sum is the sequential float sum (numpy uses pairwise summation only from 8 elements on)."""
+    from vf.engine.fp import SymFP, FP, fpval
+    import z3 as _z3
+
+    def harness(ctx: PathCtx):
+        ws = []
+        for i in range(m):
+            t = ctx.register(f"w{i}", _z3.FP(f"w{i}", FP))
+            ctx.assume(_z3.Not(_z3.Or(_z3.fpIsNaN(t), _z3.fpIsInf(t))))
+            ctx.assume(_z3.fpGEQ(t, fpval(0.0)))
+            ws.append(SymFP(t))
+        tot = ws[0]
+        for x in ws[1:]:
+            tot = tot + x
+        ctx.assume(_z3.fpGT(tot.z, fpval(0.0)))
+        ctx.assume(_z3.Not(_z3.fpIsInf(tot.z)))
+        u = ctx.register("u0", _z3.FP("u0", FP))
+        ctx.assume(_z3.And(_z3.fpGEQ(u, fpval(0.0)), _z3.fpLT(u, fpval(1.0))))
+        stub = RandomStub(lambda kind, rec: SymFP(u), max_calls=1)
+        with patched(tools, np=NpProxy(random=stub)):
+            try:
+                idx = tools.systematic_resample(n, sarr(ws))
+            except IndexError as e:
+                ctx.fail("returns-without-exception", f"IndexError: {e}")
+                return None
+        ctx.ok("returns-without-exception")
+        idx = [int(i) for i in idx]
+        ctx.check("exactly-n-valid-nondecreasing", _z3.BoolVal(len(idx) == n and all(0 <= i < m for i in idx)
+                                                              and all(idx[k] <= idx[k + 1] for k in range(n - 1))))
+        return idx
+
+    def run_concrete(model):
+        w = np.array([float(model[f"w{i}"]) for i in range(m)])
+        u0 = float(model["u0"])
+        with scripted_random(random=lambda *a, **k: u0):
+            return tools.systematic_resample(n, w), w, u0
+
+    def replay(model, label, v):
+        payload = {"n": n, "w": [float(model[f"w{i}"]) for i in range(m)], "u0": float(model["u0"])}
+        try:
+            idx, w, u0 = run_concrete(model)
+        except IndexError as e:
+            return {"reproduced": True, "signature": "systematic_resample:IndexError", "payload": payload,
+                    "what": f"tools.systematic_resample({n}, w={payload['w']}) with np.random.random()={payload['u0']!r} raises IndexError: {e}"}
+        idx = [int(i) for i in idx]
+        bad = len(idx) != n or not all(0 <= i < m for i in idx) or any(idx[k] > idx[k + 1] for k in range(n - 1))
+        return {"reproduced": bad, "signature": f"systematic_resample:fp:{label}", "payload": {**payload, "idx": idx},
+                "what": f"tools.systematic_resample({n}, {payload['w']}) with u0={payload['u0']!r} returned {idx}"}
+
+    def validate(witness, ret):
+        if ret is None:
+            return None, ""
+        try:
+            idx, _, _ = run_concrete(witness)
+        except IndexError:
+            return False, "float run raised IndexError on a path the symbolic run completed"
+        return ([int(i) for i in idx] == list(ret)), f"float run {[int(i) for i in idx]} vs symbolic path {list(ret)}"
+
+    return Obligation(f"syst-fp-n{n}-m{m}", harness, replay=replay, validate=validate, encodes=[tools.systematic_resample],
+                      bounds=f"size n={n}, m={m} weights: ALL finite non-negative doubles with positive finite sum, ALL offsets in [0,1) (bit-precise)",
+                      stubs=["np.random.random -> symbolic double in [0,1)"], theory="QF_FP", timeout_ms=60000)
+
+
 def obligations(tier):
     obs = []
     sizes = [(2, 2), (3, 2), (2, 3), (3, 3)] if tier == "quick" else [(2, 2), (3, 2), (2, 3), (3, 3), (4, 3), (3, 4), (4, 4)]
@@ -220,7 +285,10 @@ def obligations(tier):
             obs.append(make_syst(n, m, mode))
     obs.append(make_resampler("mult", 2, (2, 1)))
     obs.append(make_resampler("syst", 2, (2, 1)))
+    obs.append(make_syst_fp(2, 2))
     if tier == "thorough":
         obs.append(make_resampler("mult", 3, (2, 2)))
         obs.append(make_resampler("syst", 3, (2, 2)))
+        obs.append(make_syst_fp(3, 2))
+        obs.append(make_syst_fp(2, 3))
     return obs
